@@ -8,3 +8,6 @@ reg('C04', 'property-based testing (Hypothesis): generated containers x keys x r
 reg('C03', 'property-based testing (Hypothesis): differential over block layouts of the same columns x generated public operations; model-based coherence of every read route',
     'No unlisted layout-dependence among generated (frame, 3 layouts, operation) cases over a 72-entry operation table with value-bearing arguments, and every read route agrees with the model cells; bounded to <=6x6 frames.',
     'Trusts the observation function (labels, per-column dtype, NaN-aware values, error class), the recipe builders, and float tolerance 1e-9; str/bytes width not compared.', 'DESIGN.md section 3, C03')
+reg('C02', 'property-based testing (Hypothesis): generated label lists x construction routes x derivation chains vs a Python list model; negative space (duplicates, non-tree orders) must raise',
+    'No counterexample to the label<->position bijection (len/iter/reversed/values/iloc/positions/loc_to_iloc/membership) among generated indices (flat, auto, date, hierarchical, GO with append/extend) after up to 3 derivations; duplicates and non-tree orders always rejected with ErrorInitIndex.',
+    'Trusts the list model of each derivation (vf/props/c02.py); NaN labels excluded; bounded to <=8 labels (quick) and depth <=3.', 'DESIGN.md section 3, C02')
